@@ -29,7 +29,9 @@ const (
 
 func init() {
 	fw.Register(&fw.Prop{
-		ID: "C16",
+		ID:       "C16",
+		Builds:   []string{"default", "386"}, // the 386 build runs 1/4 of the random classes on a 32-bit target
+		Scale386: 4,
 		Rule: "valid strings built by the model encoder (total lengths 90 down to 12, lower and upper case, human-readable parts with letters and digits). w1: every substitution of one character; w2: every substitution of two characters (one case per first position, all second positions and all replacement values inside); w34: seeded random patterns of 3 and 4 changed characters. " +
 			"A data-part character (checksum included) is replaced by every other charset character in the case of the string, a letter of the human-readable part by every other letter of the same case, a digit by every other digit. Every corrupted string goes through bech32.Decode; an acceptance is a violation. " +
 			"syndrome (one case, shard 0): sigma(j,v) = polymod(base xor e_{j,v}) xor polymod(base) is read from the real bech32Polymod (hook VerifPolymod) for every distance j = 0..88 from the end and every v = 1..31 on several random bases of lengths 89..178; independence of base and length and additivity on sampled patterns are monitored; all single and pair sums (and the empty sum) are sorted and searched for equal values: two different entries with the same value are an undetected error of weight <= 4; a hit is turned into a pair of concrete strings and confirmed through bech32.Encode/Decode before it is reported. " +
@@ -590,7 +592,9 @@ func gen(g *fw.Gen) {
 	// acceptance-set scan through Decode: targeted constants on every shard; 2^22-value chunks of the
 	// 2^30 checksum values: one random chunk per shard (quick), all 256 chunks (thorough)
 	g.Emit("acceptset", fw.Pack(fw.U64(g.Rng.Uint64()), []byte{0}, fw.U32(0)))
-	if g.Quick() {
+	if g.Build == "386" {
+		// the scan over checksum values runs on the native build only
+	} else if g.Quick() {
 		g.Emit("acceptset", fw.Pack(fw.U64(g.Rng.Uint64()), []byte{1}, fw.U32(uint32(g.Rng.Intn(256)))))
 	} else {
 		for c := 0; c < 256; c++ {
@@ -599,7 +603,7 @@ func gen(g *fw.Gen) {
 			}
 		}
 	}
-	list := bases(g.Seed, g.Pick(6, 100))
+	list := bases(g.Seed, g.Scaled(g.Pick(6, 100)))
 	idx := 1 // shard 0 already has the syndrome case
 	for _, s := range list {
 		if g.Own(idx) {
